@@ -208,7 +208,7 @@ pub fn build(
     scope: &[ItemPath],
     is_vfunc: bool,
     function: &grammar::Function,
-) -> Result<Function, anyhow::Error> {
+) -> Result<Option<Function>, anyhow::Error> {
     let mut body = is_vfunc.then(|| FunctionBody::Vftable {
         function_name: function.name.0.clone(),
     });
@@ -275,40 +275,32 @@ pub fn build(
         );
     };
 
-    let arguments = function
-        .arguments
-        .iter()
-        .map(|a| match a {
-            grammar::Argument::ConstSelf => Ok(Argument::ConstSelf),
-            grammar::Argument::MutSelf => Ok(Argument::MutSelf),
-            grammar::Argument::Named(name, type_) => Ok(Argument::Field(
-                name.0.clone(),
-                type_registry
-                    .resolve_grammar_type(scope, type_)
-                    .ok_or_else(|| {
-                        anyhow::anyhow!(
-                            "failed to resolve type of field `{:?}` ({:?})",
-                            name,
-                            type_
-                        )
-                    })?,
-            )),
-        })
-        .collect::<anyhow::Result<Vec<_>>>()?;
+    // A type that cannot be resolved (yet) defers the function, and with it the type it
+    // belongs to, in the same way as an unresolvable field type does: the name may refer
+    // to an item that is only registered later (e.g. a generated vftable type).
+    let mut arguments = vec![];
+    for argument in &function.arguments {
+        arguments.push(match argument {
+            grammar::Argument::ConstSelf => Argument::ConstSelf,
+            grammar::Argument::MutSelf => Argument::MutSelf,
+            grammar::Argument::Named(name, type_) => {
+                let Some(type_) = type_registry.resolve_grammar_type(scope, type_) else {
+                    return Ok(None);
+                };
+                Argument::Field(name.0.clone(), type_)
+            }
+        });
+    }
 
-    let return_type = function
-        .return_type
-        .as_ref()
-        .map(|t| {
-            type_registry.resolve_grammar_type(scope, t).ok_or_else(|| {
-                anyhow::anyhow!(
-                    "failed to resolve return type of function `{}` ({:?})",
-                    function.name,
-                    t
-                )
-            })
-        })
-        .transpose()?;
+    let return_type = match &function.return_type {
+        Some(type_) => {
+            let Some(type_) = type_registry.resolve_grammar_type(scope, type_) else {
+                return Ok(None);
+            };
+            Some(type_)
+        }
+        None => None,
+    };
 
     let calling_convention = calling_convention.unwrap_or_else(|| {
         // Assume that if the function has a self argument, it's a thiscall function, otherwise it's "system"
@@ -324,7 +316,7 @@ pub fn build(
         }
     });
 
-    Ok(Function {
+    Ok(Some(Function {
         visibility: function.visibility.into(),
         name: function.name.0.clone(),
         doc,
@@ -332,5 +324,5 @@ pub fn build(
         arguments,
         return_type,
         calling_convention,
-    })
+    }))
 }
